@@ -1,0 +1,72 @@
+//go:build verif
+
+package termscaler
+
+// Contracts for govc (see /verif/DESIGN.md, C14). Comment-only file. float64 is treated as
+// mathematical reals throughout (no rounding, NaN, Inf): a listed assumption.
+
+// mapf(f, x): the value Mapper f yields for x. Every Mapper of the program is a total,
+// monotone non-decreasing function: the four scaler instances below are checked against
+// exactly this (obligations mono-*), it is assumed wherever a Mapper is called.
+//@ smt
+//@ (declare-fun mapf (Int Real) Real)
+//@ (assert (forall ((f Int) (a Real) (b Real)) (! (=> (<= a b) (<= (mapf f a) (mapf f b))) :pattern ((mapf f a) (mapf f b)))))
+//@ ; the mathematical definition of Scale: position of val in [min,max] after mapping, 0..1
+//@ (define-fun scalev ((sf Int) (sv Int) (slo Int) (shi Int)) Real
+//@   (ite (< shi slo) 0.0 (ite (< sv slo) 0.0 (ite (> sv shi) 1.0
+//@     (let ((lo (rfloor (mapf sf (to_real slo)))) (hi (rceil (mapf sf (to_real (ite (<= shi slo) (+ slo 1) shi))))))
+//@       (ite (= lo hi) 0.0 (/ (- (mapf sf (to_real sv)) lo) (- hi lo))))))))
+//@ end
+
+//@ nonnil rare/pkg/multiterm/termscaler.Mapper
+
+//@ functype rare/pkg/multiterm/termscaler.Mapper
+//@   params (this, v)
+//@   pure
+//@   ensures result == mapf(this, v)
+
+// the scaler instances are monotone non-decreasing (each closure: result formula, then the
+// monotonicity of that formula is a lemma over the math axioms)
+//@ func init$3 at "func(f float64) float64 { return f },"
+//@   pure
+//@   ensures result == f
+//@ func init$5 at "return math.Log2(f)"
+//@   pure
+//@   ensures result == (if f <= 1.0 then 0.0 else rlog2(f))
+//@ func init$7 at "return math.Log10(f)"
+//@   pure
+//@   ensures result == (if f <= 1.0 then 0.0 else rlog10(f))
+//@ lemma mono-log2 : forall a: real :: forall b: real :: a <= b ==> (if a <= 1.0 then 0.0 else rlog2(a)) <= (if b <= 1.0 then 0.0 else rlog2(b))
+//@ lemma mono-log10 : forall a: real :: forall b: real :: a <= b ==> (if a <= 1.0 then 0.0 else rlog10(a)) <= (if b <= 1.0 then 0.0 else rlog10(b))
+
+//@ func (Scaler).remapMinMax
+//@   requires min < 4611686018427387904
+//@   pure
+//@   ensures result0 == rfloor(mapf(s.mapVal, real(min))) && result1 == rceil(mapf(s.mapVal, real(if max <= min then min + 1 else max)))
+//@   ensures result0 <= result1
+
+// C14: scaled magnitudes lie in [0,1] (and are monotone in the value: lemma scale-monotone)
+//@ func (Scaler).Scale
+//@   requires min < 4611686018427387904
+//@   pure
+//@   ensures [range] 0.0 <= result && result <= 1.0
+//@   ensures [empty-range] max < min ==> result == 0.0
+//@   ensures [definition] result == scalev(s.mapVal, val, min, max)
+//@ lemma scale-monotone : forall f: int :: forall a: int :: forall b: int :: forall lo: int :: forall hi: int :: a <= b ==> scalev(f, a, lo, hi) <= scalev(f, b, lo, hi)
+
+//@ func Bucket
+//@   requires buckets >= 1 && buckets <= 1000000 && 0.0 <= unitVal && unitVal <= 1.0
+//@   pure
+//@   ensures 0 <= result && result <= buckets - 1
+//@ func LengthVal
+//@   requires maxLen >= 0 && maxLen <= 1000000000 && 0.0 <= unitVal && unitVal <= 1.0
+//@   pure
+//@   ensures 0 <= result && result <= maxLen
+//@ func (Scaler).Bucket
+//@   requires buckets >= 1 && buckets <= 1000000 && min < 4611686018427387904
+//@   pure
+//@   ensures 0 <= result && result <= buckets - 1
+//@ func (Scaler).LengthVal
+//@   requires maxLen >= 0 && maxLen <= 1000000000 && min < 4611686018427387904
+//@   pure
+//@   ensures 0 <= result && result <= maxLen
